@@ -99,27 +99,31 @@ def h_edits(ctx):
     lines = text.rstrip("\n").split("\n")
     n = len(lines)
     cm = "#" if lang == "python" else "//"
-    edit = ctx.pick("edit", ("insert-blank", "insert-comment", "trailing-whitespace", "reindent-x2", "crlf", "bom", "append-code",
-                             "two-edits"))
+    edit = ctx.pick("edit", ("insert-blank", "insert-indented-blank", "insert-comment", "trailing-whitespace", "reindent-x2", "crlf", "bom",
+                             "append-code", "two-edits"))
     base = _lint(files, config)
     shift, with_col = None, True
     new = None
-    if edit in ("insert-blank", "insert-comment", "two-edits"):
+    if edit in ("insert-blank", "insert-indented-blank", "insert-comment", "two-edits"):
         q = ctx.pick("insert_before_line", tuple(range(1, n + 2)))
         if tname == "dup" and 2 < q <= n:
             ctx.assume(False)      # a line inserted inside a reported duplicate block changes the block itself
         # keep the inserted line between statements: same indentation as the following line
         nxt = lines[q - 1] if q <= n else ""
         ind = re.match(r"\s*", nxt).group(0)
-        ins = "" if edit == "insert-blank" else ind + cm + " an unrelated remark"
+        ins = "" if edit == "insert-blank" else (ind + "  " if edit == "insert-indented-blank" else ind + cm + " an unrelated remark")
         new_lines = lines[:q - 1] + [ins] + lines[q - 1:]
         delta = 1
         if edit == "two-edits":
-            new_lines = [l + "  " if l else l for l in new_lines]       # plus trailing whitespace everywhere
+            new_lines = [l + "  " for l in new_lines]       # plus trailing whitespace everywhere (blank lines too)
         new = "\n".join(new_lines) + "\n"
         shift = (q + 1, delta)
     elif edit == "trailing-whitespace":
-        new = "\n".join(l + " \t" if l else l for l in lines) + "\n"
+        # blank lines get whitespace too (a whitespace-only line is still a blank line); add one blank line first
+        k = max(2, len(lines) // 2)
+        with_blank = lines[:k] + [""] + lines[k:]
+        new = "\n".join(l + " \t" for l in with_blank) + "\n"
+        shift = (k + 2, 1)
     elif edit == "reindent-x2":
         new = "\n".join(re.sub(r"^( +)", lambda m: m.group(1) * 2, l) for l in lines) + "\n"
         with_col = False
